@@ -471,7 +471,7 @@ func SameDecimal(a, b string) bool {
 }
 
 // IsIdentity reports whether corpus type typ holds identity values.
-func IsIdentity(typ string) bool { return typ == "idref" }
+func IsIdentity(typ string) bool { return typ == "idref" || typ == "u-iu" }
 
 // TypedValue is the reference scalar TypedValue encoding of a canonical value of corpus
 // type typ (gNMI specification section 2.2.3 / ygot's documented encoding).
